@@ -22,6 +22,7 @@ type ReplayFile struct {
 	Detail   string     `json:"detail,omitempty"`
 	Dec      []Decision `json:"decisions"`
 	Model    []uint64   `json:"model"`
+	ModelAll []uint64   `json:"model_all"`
 	SymNames []string   `json:"sym_names"`
 	SymWidth []int      `json:"sym_width"`
 	Choices  []uint64   `json:"choices"` // the 'k' decisions made by harness-level vxChoose, in order
@@ -30,7 +31,7 @@ type ReplayFile struct {
 
 func (r *PathResult) ToReplay(prop, harness string, tier int) *ReplayFile {
 	rf := &ReplayFile{Property: prop, Harness: harness, Tier: tier, Kind: r.Kind, Label: r.Label, Msg: r.Msg, Detail: r.Detail,
-		Dec: r.Dec, Model: r.Model, SymNames: r.SymNames, SymWidth: r.SymWidth, Obs: r.Obs}
+		Dec: r.Dec, Model: r.Model, ModelAll: r.ModelAll, SymNames: r.SymNames, SymWidth: r.SymWidth, Obs: r.Obs}
 	for _, d := range r.Dec {
 		if d.K == 'h' {
 			rf.Choices = append(rf.Choices, d.V)
